@@ -150,10 +150,14 @@ PROPS.update({
                "differential run (every source over an alphabet with ties x 4 comparators x every operation) and the implementation-side sorted-permutation oracle."),
         technique="Lean 4 proof (invariant by induction over histories, one lemma per arm, loop invariants for binary search and the Append loop; kernel-checked counterexample for the known finding) + model/implementation correspondence",
         design_ref="DESIGN.md §6 C11"),
-    "C12": dict(adp_prop(["EyeballVerif.Props.C12"],
-        "c12_initial_values / c12_initial_chain: for every stage kind, initial contents and chain of any length, the initial values handed on are the composition of the stage views (the repaired D5); "
+    "C12": dict(adp_prop(["EyeballVerif.Props.C12", "EyeballVerif.Props.ChainSound"],
+        "chain_sound: for every chain of adapters (any kinds, any depth) whose stages satisfy their invariants and every valid container from the source that brings no Truncate to a Sort stage: no stage panics, the invariants hold "
+        "afterwards, and the diffs coming out at the top take the old composed view to the new composed view, strictly, and are again a valid container (induction over the chain; stage_onDiffs_sound per stage; "
+        "head/skip/filter_truncOK: an emitted Truncate really shortens); mkPipe_chainInv: every chain the constructors build satisfies the chain invariant and its composed view is the initial values handed out; c12_initial_values / c12_initial_chain: for every stage kind, initial contents and chain of any length, the initial values handed on are the composition of the stage views (the repaired D5); "
         "c12_stage_buffers_view_below: every stage starts with the invariant its rewriting theorem needs"),
-        claim=("Lean 4 theorems c12_initial_values and c12_initial_chain: for every kind of stage and chains of any length (induction over the chain) the initial values a stage hands to the next one "
+        claim=("Lean 4 theorems chain_sound + mkPipe_chainInv: stacking adapters composes their views — for chains of any depth built by the constructors, a valid source container pushed through all stages comes out as diffs that "
+               "take the old composed view to the new one, each stage's output being a valid input for the next (an emitted Truncate always shortens), by induction over the chain from the per-stage theorems of C09/C10/C11 "
+               "(Truncate into a Sort stage excluded: known finding D4). c12_initial_values and c12_initial_chain: for every kind of stage and chains of any length (induction over the chain) the initial values a stage hands to the next one "
                "are its view of the stage below — in particular empty for the purely dynamic Head/Tail/Skip (repaired defect D5) — and every stage starts with the buffer/bookkeeping invariant that the per-stage "
                "refinement theorems of C09/C10 assume. The per-stage theorems compose because each stage's output diffs are strictly applicable to its own view (C09/C10 theorems). Tied to the code by "
                "random chains of up to 3 stages with transparent taps between the stages checked at every quiescent point."),
